@@ -25,7 +25,7 @@ func (c15) Rule() string {
 func (c15) Exhaustive(string) string { return "" }
 func (c15) Runs(tier string) int64 {
 	if tier == "thorough" {
-		return 600000
+		return 4000000
 	}
 	return 24000
 }
